@@ -95,8 +95,8 @@ def w11 : World := (runOps (World.init T0) f11).2
 theorem reach11 : Reach w11 := ⟨T0, f11, by decide, rfl⟩
 
 def e11 : Drr :=
-  { key := some { created := 1700004000, enc := .enc 3 8 (.key 6), parent := some ⟨.ik 1, 1700003000⟩ },
-    data := .enc 6 7 (.payload 3) }
+  { key := some { created := 1700004000, enc := .enc 3 7 (.key 5), parent := some ⟨.ik 1, 1700003000⟩ },
+    data := .enc 5 6 (.payload 3) }
 
 def r11 : Row :=
   { kid := .ik 1, created := 1700003000, revoked := false, enc := .enc 0 3 (.key 3), parent := some ⟨.sk, 1700000000⟩ }
